@@ -341,3 +341,32 @@ Proof. intros base b mn mx o g. split; [|split; [|split]].
   - exact (log_ticks_capped_eq b mn mx o).
   - exact (log_nice_capped_eq b mn mx o). Qed.
 Print Assumptions C17_check_runs_the_model.
+
+(* ================= the slack decision of Log scales, against REAL logarithms ================= *)
+(* (real-number statements: Print Assumptions shows the axioms of the standard library's reals
+   and nothing else)  The three-valued decision [near] that log_exps uses in place of the float
+   comparison |log big - log small| <= 1e-10 (log max - log min) encloses the real-valued rule:
+   N_inside implies the two values are within the slack (with mu to spare), N_outside implies
+   they are farther apart (by more than mu); only N_border - which the check counts as a
+   borderline input - leaves the real-valued rule undecided.  Together with
+   C17_floor_log_is_floor_of_log / C17_ceil_log_is_ceil_of_log this makes the admitted exponent
+   interval of log_exps the real-valued one whenever no decision is N_border. *)
+From Coq Require Import Reals Qreals.
+From MM Require Import Proofs.TicksNearR.
+
+Theorem C17_near_inside_sound : forall small big t mu : Q, (0 < small)%Q -> (small <= big)%Q -> (1 <= t)%Q ->
+  near small big t mu = N_inside ->
+  (ln (Q2R big / Q2R small) <= Q2R slack_factor * ln (Q2R t) - Q2R mu)%R.
+Proof. exact near_inside_sound. Qed.
+Print Assumptions C17_near_inside_sound.
+
+Theorem C17_near_outside_sound : forall small big t mu : Q, (0 < small)%Q -> (small <= big)%Q -> (1 <= t)%Q ->
+  near small big t mu = N_outside ->
+  (Q2R slack_factor * ln (Q2R t) + Q2R mu <= ln (Q2R big / Q2R small))%R.
+Proof. exact near_outside_sound. Qed.
+Print Assumptions C17_near_outside_sound.
+
+Example C17_near_example :
+  near 1000 (1000 + (1 # 100000000)) 20 (1 # 1000000000000) = N_inside /\
+  near 1000 1001 20 (1 # 1000000000000) = N_outside.
+Proof. vm_compute. split; reflexivity. Qed.
